@@ -40,6 +40,11 @@ CHECKS = {
         technique="TLA+ contract SandboxContract (LockedDown, ParentsFirst, RequestsMounted, reserved/escape rejection) and design model Sandbox (mounts as character strings, stable string sort) checked by TLC for all request sequences; the real unexported generateSpec/prepareMountPoints run through an in-package overlay test on a materialised path universe, results validated by TLC",
         text="TLC exhausts request sequences (<=3, thorough <=4) over a universe where string order differs from path order and shows the sorted mount list always mounts parents first and rejects reserved paths; the real functions are called for ~1000 (thorough ~6000) request sets built from nested, duplicated, relative, symlinked, '..'-spelled, reserved and under-reserved paths, and every returned specification / error is validated by TLC against the contract.",
         note=TRUST + "; 'collides' read as equal-after-cleaning to a reserved path; runsc enforcement itself is out of scope (absent here)"),
+    "C20": dict(
+        level="model_checking", ref="3/C20",
+        technique="TLA+ contract DbPathGuardContract (POSIX physical resolution over a file-system model) vs design DbPathGuard checked by TLC for every spelling <= 4 components; every spelling of the same pools probed on the real NewPebbleScanner over a materialised tree and validated by TLC against the contract evaluated on lstat facts of the real file system",
+        text="TLC shows the guard's algorithm equals the physical-resolution contract for all 54k spellings of the model (and that the legacy algorithm does not); ~7000 (thorough ~110k) spellings over symlinks into /etc,/usr,/root, look-alike names, '..' after symlinks and missing leaves are probed read-only on the real code, plus read-write probes through a sacrificial directory under /root; TLC validates each verdict.",
+        note=TRUST + "; protected set is the code's documented list; read-write probes never touch real system content"),
 }
 
 NOT_YET = {}
